@@ -12,8 +12,8 @@ fn collect<'h>(it: impl Iterator<Item = fancy_regex::Result<&'h str>>, max: usiz
 }
 
 pub fn run(ctx: &Ctx) -> Outcome {
-    let sp = spaces::c01_space(ctx.tier, ctx.seed ^ 10, false, 3, 4, 2, 2, 2_000, 30_000);
-    let un = spaces::unrestricted(ctx.tier, ctx.seed ^ 10, 3, 3, 1_000, 10_000);
+    let sp = spaces::c01_space(ctx.tier, ctx.seed ^ 10, false, 3, 4, 2, 2, 8_000, 40_000);
+    let un = spaces::unrestricted(ctx.tier, ctx.seed ^ 10, 3, 3, 4_000, 20_000);
     let mut patterns = sp.patterns;
     patterns.extend(un.patterns);
     let texts = spaces::texts_c01(ctx.tier.pick(3, 4));
